@@ -77,8 +77,8 @@ func orders(rs []RuleRef) [][]RuleRef {
 			}
 		}
 		out = next
-		if len(out) > 5000 {
-			break
+		if len(out) > 20000 {
+			panic("ref.orders: more than 20000 admissible orders among equal saliences - use smaller tie groups")
 		}
 	}
 	return out
